@@ -9,5 +9,5 @@ cmp -s /repo/go.sum harness/go.sum || cp /repo/go.sum harness/go.sum
 T="$(mktemp -d)"; trap 'rm -rf "$T"' EXIT
 cp specs/*.tla "$T"/
 ( cd "$T" && for f in *.tla; do case "$f" in *Proofs.tla) continue;; esac; tla-sany "$f" > "$f.log" 2>&1 || { echo "SANY failed on $f"; tail -20 "$f.log"; exit 1; }; done )
-( cd "$T" && for f in *Proofs.tla; do timeout 600 tlapm --threads 8 "$f" > "$f.log" 2>&1 || { echo "tlapm failed on $f"; tail -20 "$f.log"; exit 1; }; done )
+( cd "$T" && for f in *Proofs.tla; do timeout 600 tlapm --threads 4 --stretch 5 "$f" > "$f.log" 2>&1 || { echo "tlapm failed on $f"; tail -20 "$f.log"; exit 1; }; done )
 echo setup ok
